@@ -581,6 +581,7 @@ fn stats_json(
     let _ = write!(j, "\"evaluations\":{evaluations},\"distinct_nontrivial\":{distinct},\"wall_s\":{wall:.3},");
     let _ = write!(j, "\"runs_fault_free\":{},\"runs_faulty\":{},", s.runs_fault_free, s.runs_faulty);
     let _ = write!(j, "\"distinct_states\":{},\"decoder_pairs\":{},\"bad_class_seqs\":{},", s.states.len(), s.decoder_pairs.len(), s.bad_class_seqs.len());
+    let _ = write!(j, "\"small_editor_states\":{},\"small_history_states\":{},", s.small_editor_states.len(), s.small_history_states.len());
     let mut by_len = [0usize; 5];
     for v in &s.bad_class_seqs {
         // length is the leading digit group: v = ((len*16 + c1)*16 + c2)...
